@@ -108,9 +108,17 @@ Definition c06_spec_row (r : list str) : list str :=
     kterm_fields s ++ [p] ++ kterm_fields o
   end.
 
+(** a comment line or a blank line of a document: row = [kind (C|B); blanks; text after '#']
+    -> [rendered line; valid; in the document domain (raw string); in the document domain (file)] *)
+Definition c06_dline_row (r : list str) : list str :=
+  let d := if str_eqb (fld r 0) (Str "C") then DComment (fld r 1) (fld r 2) else DBlank (fld r 1) in
+  [r_dline d; bstr (valid_dline d); bstr (dline_dom_cur d); bstr (dline_dom_file_cur d)].
+
 Definition entry_c06 (name : str) (t : table) : option table :=
   if str_eqb name (Str "c06_line") then Some (map c06_line_row t)
   else if str_eqb name (Str "c06_doc") then Some (map c06_doc_row t)
   else if str_eqb name (Str "c06_spec") then Some (map c06_spec_row t)
-  else if str_eqb name (Str "c06_info") then Some [[bstr nt_fixed_tok; bstr nt_fixed_dlt; bstr nt_tok_end_at_hash; bstr nt_uri_unclosed_to_eol]]
+  else if str_eqb name (Str "c06_dline") then Some (map c06_dline_row t)
+  else if str_eqb name (Str "c06_info") then Some [[bstr nt_fixed_tok; bstr nt_fixed_dlt; bstr nt_tok_end_at_hash; bstr nt_uri_unclosed_to_eol;
+                                                             bstr nt_skips_comment_lines]]
   else None.
